@@ -2173,6 +2173,17 @@ mut("ms3-oncelock-flag-load-relaxed", "break", ["C18", "C20"], "the fast path re
 mut("ok-ms3-queue-pop-tail-load-relaxed", "benign", [], "the tail loaded after the head CAS is only compared, never dereferenced: Relaxed is what the code has",
     [ed(QF, "let tail = self.tail.load(Relaxed, guard);", "let tail = self.tail.load(Acquire, guard);", 2)])
 
+mut("ty-rc-as-ref-unbounded", "break", ["C01"], "Rc::as_ref / Rc::deref return a reference with a lifetime of the caller's choosing",
+    [ed(S, "    pub fn as_ref(&self) -> Option<&T> {", "    pub fn as_ref<'a>(&self) -> Option<&'a T> {"),
+     ed(S, "    pub unsafe fn deref(&self) -> &T {", "    pub unsafe fn deref<'a>(&self) -> &'a T {")], ["TY-SIG", "TY-REF-BORROW"])
+mut("ok-ty-rc-as-ref-explicit-lifetime", "benign", [], "the same signatures with the elided lifetime written out",
+    [ed(S, "    pub fn as_ref(&self) -> Option<&T> {", "    pub fn as_ref<'a>(&'a self) -> Option<&'a T> {"),
+     ed(S, "    pub unsafe fn deref(&self) -> &T {", "    pub unsafe fn deref<'a>(&'a self) -> &'a T {")])
+
+mut("ok-twin-C03-7-counted-borrowed-clone", "benign", [], "WeakSnapshot::counted duplicates a borrowed ManuallyDrop<Weak> view of its pointer "
+    "through Weak::clone, which keeps the from-zero token (first half of the PAIR seed S-C03-7; increment_weak split into "
+    "add_weak_refs + token)", [{"patch": "selftest/twins/C03-7-counted-borrowed-clone.diff"}])
+
 # behaviour-preserving refactorings written by sub-agents told to keep every interleaving's behaviour (selftest/refactors/)
 for f in sorted(glob.glob(os.path.join(HERE, "refactors", "*.diff"))):
     name = os.path.basename(f)[:-5]
